@@ -577,11 +577,11 @@ def case_glue(ctx, res, p):
             exp["d"] = P.compute_d(Xj[:, :-1])
             exp["nn_distances"] = validate_nn_distances(P.compute_nn_distances_within_time_points(Xj, d=exp["d"], normalize=nz))
             exp["mu"] = P.compute_mu(exp["nn_distances"], exp["d"])
-            raw = P.compute_nn_distances_within_time_points(Xj, normalize=False) if nz else exp["nn_distances"]
+            raw = validate_nn_distances(P.compute_nn_distances_within_time_points(Xj, normalize=False)) if nz else exp["nn_distances"]
             exp["ls"] = P.compute_ls(raw) * e.ls_factor
             cov = P.compute_cov_func(e.cov_func_curry, exp["ls"], e.ls_time)
         else:
-            exp["distances"] = P.compute_distances(Xj, k=5)
+            exp["distances"] = validate_nn_distances(P.compute_distances(Xj, k=5))
             exp["nn_distances"] = exp["distances"][:, 0]
             exp["ls"] = P.compute_ls(exp["nn_distances"]) * e.ls_factor
             cov = P.compute_cov_func(e.cov_func_curry, exp["ls"])
